@@ -2,6 +2,7 @@ import M3d.Basic
 import M3d.Model.Surface
 import M3d.Model.Triangulate
 import M3d.Model.TriFace
+import M3d.Model.TriOff
 /-!
 Line-protocol handler for C14.  Core-only.
 
@@ -270,6 +271,46 @@ def triples3 : List Int → List (Int × Int × Int)
   | a :: b :: c :: t => (a, b, c) :: triples3 t
   | _ => []
 
+/-- The verdict for one planar face given by its corners `p3` (exact coordinates) and the triangles
+the real code returned for it (ids = positions in `p3`): planarity and simplicity of the input, then
+the certificate in the exact drop-a-coordinate chart (`chartXY/YZ/ZX` of `M3d/Model/TriOff.lean`) and
+in the model chart of `TriangulateFace`. -/
+def faceVerdict (p3 : List (Q × Q × Q)) (tf : TrisField) : String :=
+  let n := p3.length
+  -- Newell normal
+  let es := match p3 with | [] => [] | a :: t => List.zip (a :: t) (t ++ [a])
+  let nx := es.foldl (fun s e => s + (e.1.2.1 - e.2.2.1) * (e.1.2.2 + e.2.2.2)) (0 : Q)
+  let ny := es.foldl (fun s e => s + (e.1.2.2 - e.2.2.2) * (e.1.1 + e.2.1)) (0 : Q)
+  let nz := es.foldl (fun s e => s + (e.1.1 - e.2.1) * (e.1.2.1 + e.2.2.1)) (0 : Q)
+  let p0 := p3.headD (0, 0, 0)
+  let planar := p3.all fun p => nx * (p.1 - p0.1) + ny * (p.2.1 - p0.2.1) + nz * (p.2.2 - p0.2.2) == 0
+  -- exact affine chart: drop a coordinate along which the normal does not vanish
+  let pts : List (P2 Q) :=
+    if nz != 0 then p3.map fun p => ⟨p.1, p.2.1⟩
+    else if nx != 0 then p3.map fun p => ⟨p.2.1, p.2.2⟩
+    else p3.map fun p => ⟨p.2.2, p.1⟩
+  if !planar || !simpleLoop pts then "invalid-input" else
+  -- the chart of the model of `TriangulateFace` (`faceChart`: basis2 from the first vertex off the
+  -- line of the first edge).  By `M3d.C14.face_chart_faithful` it exists for every valid face and is
+  -- an orientation-faithful image of it, so it is simple and the certificate has the same verdict
+  -- in it as in the drop-a-coordinate chart; both are evaluated (a disagreement would be a defect of
+  -- the machinery, never of the Go code, and is printed as such).
+  let p3' : List (P3 Q) := p3.map fun p => ⟨p.1, p.2.1, p.2.2⟩
+  match faceChart p3' with
+  | none => "machinery:model-chart-missing"
+  | some ch =>
+  if !simpleLoop ch then "machinery:model-chart-not-simple" else
+  match tf with
+  | .panic => "ok n=?"
+  | .foreign => "bad:foreign-vertex"
+  | .tris ts =>
+    let v1 := certLine (coordFn pts) n (isClockwise pts) [n] ts
+    let v2 := certLine (coordFn ch) n (isClockwise ch) [n] ts
+    if v1.isSome != v2.isSome then "machinery:charts-disagree" else
+    match v1 with
+    | some b => b
+    | none => if ts.length + 2 ≤ n then s!"ok n={ts.length}" else "bad:too-many-triangles"
+
 /-- The face is checked on the coordinates as written: planarity, simplicity and the certificate
 are invariant under the uniform scaling `S e` (`M3d.C14.cert_scale_invariant`; the chart of
 `sc·p` is `sc·`chart of `p`), and no area is printed for this kind. -/
@@ -281,39 +322,7 @@ def handleFaceS : List String → Option String
       let (is, rest) ← takeInts (3 * n) ws
       let (tf, _) ← parseTris rest
       let p3 : List (Q × Q × Q) := (triples3 is).map fun p => ((p.1 : Q) / den, (p.2.1 : Q) / den, (p.2.2 : Q) / den)
-      -- Newell normal
-      let es := match p3 with | [] => [] | a :: t => List.zip (a :: t) (t ++ [a])
-      let nx := es.foldl (fun s e => s + (e.1.2.1 - e.2.2.1) * (e.1.2.2 + e.2.2.2)) (0 : Q)
-      let ny := es.foldl (fun s e => s + (e.1.2.2 - e.2.2.2) * (e.1.1 + e.2.1)) (0 : Q)
-      let nz := es.foldl (fun s e => s + (e.1.1 - e.2.1) * (e.1.2.1 + e.2.2.1)) (0 : Q)
-      let p0 := p3.headD (0, 0, 0)
-      let planar := p3.all fun p => nx * (p.1 - p0.1) + ny * (p.2.1 - p0.2.1) + nz * (p.2.2 - p0.2.2) == 0
-      -- exact affine chart: drop a coordinate along which the normal does not vanish
-      let pts : List (P2 Q) :=
-        if nz != 0 then p3.map fun p => ⟨p.1, p.2.1⟩
-        else if nx != 0 then p3.map fun p => ⟨p.2.1, p.2.2⟩
-        else p3.map fun p => ⟨p.2.2, p.1⟩
-      if !planar || !simpleLoop pts then some "invalid-input" else
-      -- the chart of the model of `TriangulateFace` (`faceChart`: basis2 from the first vertex off the
-      -- line of the first edge).  By `M3d.C14.face_chart_faithful` it exists for every valid face and is
-      -- an orientation-faithful image of it, so it is simple and the certificate has the same verdict
-      -- in it as in the drop-a-coordinate chart; both are evaluated (a disagreement would be a defect of
-      -- the machinery, never of the Go code, and is printed as such).
-      let p3' : List (P3 Q) := p3.map fun p => ⟨p.1, p.2.1, p.2.2⟩
-      match faceChart p3' with
-      | none => some "machinery:model-chart-missing"
-      | some ch =>
-      if !simpleLoop ch then some "machinery:model-chart-not-simple" else
-      match tf with
-      | .panic => some "ok n=?"
-      | .foreign => some "bad:foreign-vertex"
-      | .tris ts =>
-        let v1 := certLine (coordFn pts) n (isClockwise pts) [n] ts
-        let v2 := certLine (coordFn ch) n (isClockwise ch) [n] ts
-        if v1.isSome != v2.isSome then some "machinery:charts-disagree" else
-        match v1 with
-        | some b => some b
-        | none => if ts.length + 2 ≤ n then some s!"ok n={ts.length}" else some "bad:too-many-triangles"
+      some (faceVerdict p3 tf)
   | _ => none
 
 def handleFace : List String → Option String
@@ -322,6 +331,115 @@ def handleFace : List String → Option String
       if e.natAbs > 200 then none
       handleFaceS ws
   | ws => handleFaceS ws
+
+/-! ### `ReadOFF` on files with many faces (kind `offmesh`)
+
+`[S e] D den V nv x y z … F k (n id…)×k R r tx ty tz B nb (r0 r1 T m a b c …)×nb`: the file consists
+of `r` copies of a tile (`nv` vertices, `k` faces given by tile vertex ids), copy `i` translated by
+`i·(tx,ty,tz)/den`; the real output is carried as blocks: the copies `r0 ≤ i < r1` all received the
+triangles `a b c …` (tile vertex ids).  Required (`M3d.C14.readOFF_every_face`: the face loop returns
+the triangulation of EVERY face of the file): each face of each copy is covered by a certified
+triangulation, every triangle lies in exactly one face.  The certificate is evaluated for the first
+and the last copy of a block; it is the same for every copy of the block because a translation of
+space is a translation in each drop-a-coordinate chart (`M3d.C14.off_copy_cert_transfer`). -/
+
+structure OffFile where
+  nv : Nat
+  verts : List (Q × Q × Q)
+  faces : List (List Nat)
+  copies : Nat
+  shift : Q × Q × Q
+
+def parseFaces : Nat → List String → Option (List (List Nat) × List String)
+  | 0, ws => some ([], ws)
+  | k + 1, w :: ws => do
+      let n ← w.toNat?
+      let ids ← (ws.take n).mapM (·.toNat?)
+      if ids.length ≠ n then none
+      let (fs, r) ← parseFaces k (ws.drop n)
+      pure (ids :: fs, r)
+  | _, [] => none
+
+def parseBlocks : Nat → List String → Option (List (Nat × Nat × List Tri))
+  | 0, _ => some []
+  | k + 1, r0 :: r1 :: ws => do
+      let r0 ← r0.toNat?
+      let r1 ← r1.toNat?
+      match ← parseTris ws with
+      | (.tris ts, rest) =>
+        let bs ← parseBlocks k rest
+        pure ((r0, r1, ts) :: bs)
+      | _ => none
+  | _, _ => none
+
+def inFace (f : List Nat) (t : Tri) : Bool := f.contains t.1 && f.contains t.2.1 && f.contains t.2.2
+
+/-- `none` = every face of copy `cp` is covered by a certified triangulation taken from `ts`. -/
+def copyVerdict (o : OffFile) (cp : Nat) (ts : List Tri) : Option String :=
+  if !ts.all (fun t => (o.faces.filter (inFace · t)).length == 1) then some "triangle-not-in-exactly-one-face"
+  else (List.range o.faces.length).findSome? fun j =>
+    let f := o.faces.getD j []
+    let p3 := f.map fun v =>
+      let p := o.verts.getD v (0, 0, 0)
+      (p.1 + (cp : Q) * o.shift.1, p.2.1 + (cp : Q) * o.shift.2.1, p.2.2 + (cp : Q) * o.shift.2.2)
+    let tj : List Tri := (ts.filter (inFace f)).map fun t =>
+      (f.findIdx (· == t.1), f.findIdx (· == t.2.1), f.findIdx (· == t.2.2))
+    let v := faceVerdict p3 (.tris tj)
+    if v.startsWith "ok" then none else some s!"face={j}:{v}"
+
+def blocksTile (copies : Nat) : Nat → List (Nat × Nat × List Tri) → Bool
+  | at_, [] => at_ == copies
+  | at_, (r0, r1, _) :: bs => r0 == at_ && decide (r0 < r1) && blocksTile copies r1 bs
+
+def handleOffMeshS : List String → Option String
+  | "D" :: d :: "V" :: nv :: ws => do
+      let den ← d.toNat?
+      if den = 0 then none
+      let nv ← nv.toNat?
+      let (is, rest) ← takeInts (3 * nv) ws
+      let verts : List (Q × Q × Q) := (triples3 is).map fun p => ((p.1 : Q) / den, (p.2.1 : Q) / den, (p.2.2 : Q) / den)
+      match rest with
+      | "F" :: k :: rest => do
+        let k ← k.toNat?
+        let (faces, rest) ← parseFaces k rest
+        match rest with
+        | "R" :: r :: tx :: ty :: tz :: "B" :: rest => do
+          let copies ← r.toNat?
+          let tx ← tx.toInt?
+          let ty ← ty.toInt?
+          let tz ← tz.toInt?
+          let o : OffFile := ⟨nv, verts, faces, copies, ((tx : Q) / den, (ty : Q) / den, (tz : Q) / den)⟩
+          if !faces.all (fun f => f.all (· < nv) && decide f.Nodup) || copies == 0 then some "invalid-input" else
+          let total := copies * faces.length
+          match rest with
+          | ["x"] => some s!"ok faces={total} tris=?"
+          | ["f"] => some "bad:foreign-vertex"
+          | nb :: rest => do
+            let nb ← nb.toNat?
+            let bs ← parseBlocks nb rest
+            if !blocksTile copies 0 bs then some "machinery:blocks-do-not-tile-the-copies" else
+            let bad := bs.findSome? fun b =>
+              match copyVerdict o b.1 b.2.2 with
+              | some v => some (b.1, v)
+              | none => (copyVerdict o (b.2.1 - 1) b.2.2).map fun v => (b.2.1 - 1, v)
+            match bad with
+            | some (cp, v) =>
+              if (v.splitOn "invalid-input").length > 1 then some "invalid-input"
+              else some s!"bad:copy={cp} {v}"
+            | none =>
+              let tris := bs.foldl (fun s b => s + (b.2.1 - b.1) * b.2.2.length) 0
+              some s!"ok faces={total} tris={tris}"
+          | _ => none
+        | _ => none
+      | _ => none
+  | _ => none
+
+def handleOffMesh : List String → Option String
+  | "S" :: e :: ws => do
+      let e ← e.toInt?
+      if e.natAbs > 200 then none
+      handleOffMeshS ws
+  | ws => handleOffMeshS ws
 
 /-! ### ProfileMesh -/
 
@@ -387,6 +505,7 @@ def handleAll (ws : List String) : Option String :=
   | "earseq" :: r => parseInput r >>= handleEarSeq
   | "face" :: r => handleFace r
   | "off" :: r => handleFace r      -- the same face read through `ReadOFF`
+  | "offmesh" :: r => handleOffMesh r
   | "profile" :: r => parseInput r >>= handleProfile
   | _ => none
 
